@@ -67,13 +67,16 @@ func c12Subjects() []c12Subject {
 		format string
 		min    interface{}
 		max    interface{}
+		step   int
 	}
 	for _, g := range []gen{
-		{"Int/uint8", characteristic.FormatUInt8, nil, nil}, {"Int/uint8[0,100]", characteristic.FormatUInt8, 0, 100},
-		{"Int/uint16", characteristic.FormatUInt16, nil, nil}, {"Int/uint32", characteristic.FormatUInt32, nil, nil},
-		{"Int/uint64", characteristic.FormatUInt64, nil, nil}, {"Int/int32", characteristic.FormatInt32, nil, nil},
-		{"Int/int32[-50,50]", characteristic.FormatInt32, -50, 50}, {"Int/uint32[1,1]", characteristic.FormatUInt32, 1, 1},
-		{"Int/uint64[0,2^53+3]", characteristic.FormatUInt64, 0, 9007199254740995}, {"Int/uint64[0,MaxInt64]", characteristic.FormatUInt64, 0, math.MaxInt64},
+		{"Int/uint8", characteristic.FormatUInt8, nil, nil, 0}, {"Int/uint8[0,100]", characteristic.FormatUInt8, 0, 100, 0},
+		{"Int/uint16", characteristic.FormatUInt16, nil, nil, 0}, {"Int/uint32", characteristic.FormatUInt32, nil, nil, 0},
+		{"Int/uint64", characteristic.FormatUInt64, nil, nil, 0}, {"Int/int32", characteristic.FormatInt32, nil, nil, 0},
+		{"Int/int32[-50,50]", characteristic.FormatInt32, -50, 50, 0}, {"Int/uint32[1,1]", characteristic.FormatUInt32, 1, 1, 0},
+		{"Int/uint64[0,2^53+3]", characteristic.FormatUInt64, 0, 9007199254740995, 0}, {"Int/uint64[0,MaxInt64]", characteristic.FormatUInt64, 0, math.MaxInt64, 0},
+		// a declared step that does not divide the range
+		{"Int/uint8[0,100]step40", characteristic.FormatUInt8, 0, 100, 40}, {"Int/int32[-90,90]step50", characteristic.FormatInt32, -90, 90, 50},
 	} {
 		g := g
 		out = append(out, c12Subject{"generic." + g.name, func() (interface{}, *characteristic.Characteristic) {
@@ -84,11 +87,14 @@ func c12Subjects() []c12Subject {
 				c.SetMinValue(g.min.(int))
 				c.SetMaxValue(g.max.(int))
 			}
+			if g.step > 0 {
+				c.SetStepValue(g.step)
+			}
 			c.SetValue(1)
 			return c, c.Characteristic
 		}})
 	}
-	for _, g := range []gen{{"Float", "", nil, nil}, {"Float[-10.5,10.5]", "", -10.5, 10.5}, {"Float[0,1e-3]", "", 0.0, 1e-3}} {
+	for _, g := range []gen{{"Float", "", nil, nil, 0}, {"Float[-10.5,10.5]", "", -10.5, 10.5, 0}, {"Float[0,1e-3]", "", 0.0, 1e-3, 0}} {
 		g := g
 		out = append(out, c12Subject{"generic." + g.name, func() (interface{}, *characteristic.Characteristic) {
 			c := characteristic.NewFloat("F002")
@@ -387,6 +393,17 @@ func c12Run(c *fw.Ctx) {
 			vals["max+1"], vals["max"] = mx+1, mx
 			labels = append(labels, "max+1", "max")
 		}
+		if ch.Format == characteristic.FormatFloat {
+			// just outside the bounds: by one float64 step and by less than a float32 step
+			if mx, ok := num(ch.MaxValue); ok {
+				vals["max+ulp"], vals["max+1e-8rel"] = math.Nextafter(mx, math.Inf(1)), mx+math.Abs(mx)*1e-8+1e-40
+				labels = append(labels, "max+ulp", "max+1e-8rel")
+			}
+			if mn, ok := num(ch.MinValue); ok {
+				vals["min-ulp"], vals["min-1e-8rel"] = math.Nextafter(mn, math.Inf(-1)), mn-math.Abs(mn)*1e-8-1e-40
+				labels = append(labels, "min-ulp", "min-1e-8rel")
+			}
+		}
 		var events []c12Step
 		for _, l := range labels {
 			events = append(events, c12Step{Val: l}, c12Step{Val: l, Remote: true})
@@ -461,7 +478,7 @@ func init() {
 	fw.Register(&fw.Check{
 		ID:          "C12",
 		Level:       "model_checking",
-		Rule:        "every characteristic constructor found in /repo plus 16 generic constructor × format × bounds configurations; every update sequence of length ≤2 (thorough: ≤3 once per behaviour class = (format, min, max, default type, permissions)) over ≈40 JSON-like values (numbers of every magnitude and sign, numeric / NaN / Inf strings, booleans, null, arrays, objects, the constructor's own min−1/min/max/max+1), each applied locally or from a connection, or supplied by an application read callback when the value is read locally (typed getter) or by a controller, or written by a change handler of the same characteristic while it is being notified of another change; plus, for every constructor with declared bounds, two live instances (one with narrowed bounds) updated alternately; after every update: no panic, stored value has the Go type of the format, is finite and within declared bounds, typed getter and JSON encoding succeed. states = executed sequences, distinct_nontrivial = distinct (format, stored Go type) classes Plus, in a subprocess built with a scheduling point before EVERY statement of hc's packages (textual insertion through go build -overlay): every interleaving with at most 1 (thorough 2) preemptions of pairs of operations on disjoint objects — and, where the property is about served requests, of pairs of handlers on two verified connections of one accessory touching different characteristics — each side must observe exactly what it observes when the two run one after the other (module-level mutable state is what makes them differ).",
+		Rule:        "every characteristic constructor found in /repo plus 18 generic constructor × format × bounds configurations (two with a declared step that does not divide the range); every update sequence of length ≤2 (thorough: ≤3 once per behaviour class = (format, min, max, default type, permissions)) over ≈40 JSON-like values (numbers of every magnitude and sign, numeric / NaN / Inf strings, booleans, null, arrays, objects, the constructor's own min−1/min/max/max+1, and for floats the neighbours of the bounds one float64 step and a 10^-8 fraction outside), each applied locally or from a connection, or supplied by an application read callback when the value is read locally (typed getter) or by a controller, or written by a change handler of the same characteristic while it is being notified of another change; plus, for every constructor with declared bounds, two live instances (one with narrowed bounds) updated alternately; after every update: no panic, stored value has the Go type of the format, is finite and within declared bounds, typed getter and JSON encoding succeed. states = executed sequences, distinct_nontrivial = distinct (format, stored Go type) classes Plus, in a subprocess built with a scheduling point before EVERY statement of hc's packages (textual insertion through go build -overlay): every interleaving with at most 1 (thorough 2) preemptions of pairs of operations on disjoint objects — and, where the property is about served requests, of pairs of handlers on two verified connections of one accessory touching different characteristics — each side must observe exactly what it observes when the two run one after the other (module-level mutable state is what makes them differ).",
 		Run:         c12Run,
 		Replay:      c12Replay,
 		Budget:      func(string) time.Duration { return 25 * time.Minute },
